@@ -44,9 +44,17 @@ type FuncContract struct {
 	Terminate bool // recursion / loops need decreases
 	File      string
 	Line      int
-	Decreases []*Clause // for recursion
-	Ghostdef  []*Clause // ensures clauses that are definitions of ghost state
+	Decreases []*Clause   // for recursion
+	Ghostdef  []*Clause   // ensures clauses that are definitions of ghost state
+	Ghostset  []*GhostSet // ghost assignments performed when the function returns
 	Opts      map[string]string
+}
+
+type GhostSet struct {
+	Loc  Expr
+	Val  Expr
+	Src  string
+	Cond Expr
 }
 
 type SpecFunc struct {
@@ -71,11 +79,11 @@ type Lemma struct {
 }
 
 type GlobalInv struct {
-	Pkg   string
-	Name  string
-	By    string // establishing function (init#1)
-	Expr  Expr
-	Src   string
+	Pkg  string
+	Name string
+	By   string // establishing function (init#1)
+	Expr Expr
+	Src  string
 }
 
 type GhostField struct {
@@ -85,14 +93,14 @@ type GhostField struct {
 }
 
 type Specs struct {
-	Funcs   map[string]*FuncContract
-	Spec    map[string]*SpecFunc
-	Lemmas  []*Lemma
-	Ghost   map[string]*GhostField // key: pkgpath.Type.#name
+	Funcs      map[string]*FuncContract
+	Spec       map[string]*SpecFunc
+	Lemmas     []*Lemma
+	Ghost      map[string]*GhostField // key: pkgpath.Type.#name
 	GlobalInvs []*GlobalInv
 	GhostVars  map[string]string // $name -> sort
-	Files   []string
-	Guarded []string
+	Files      []string
+	Guarded    []string
 }
 
 func NewSpecs() *Specs {
@@ -192,6 +200,24 @@ func (sp *Specs) LoadSpecFile(path, pkgPath string) error {
 			case "ghostdef":
 				cur.Ghostdef = append(cur.Ghostdef, c)
 			}
+		case "ghostset":
+			// ghostset x.#g = expr
+			if cur == nil {
+				return fail("ghostset outside func")
+			}
+			i := strings.Index(rest, " = ")
+			if i < 0 {
+				return fail("ghostset loc = expr")
+			}
+			le, err := ParseExpr(rest[:i])
+			if err != nil {
+				return fail("%v", err)
+			}
+			ve, err := ParseExpr(rest[i+3:])
+			if err != nil {
+				return fail("%v", err)
+			}
+			cur.Ghostset = append(cur.Ghostset, &GhostSet{Loc: le, Val: ve, Src: rest})
 		case "decreases":
 			if cur == nil {
 				return fail("decreases outside func")
